@@ -248,6 +248,37 @@ func (e *tailEnv) observe(aliveAfterStream, aliveAfterPoll, nPatterns int) {
 	}
 }
 
+// c16Bulk is the content of the bulk append `A:<n>:<len>`: n lines of len bytes each (a six-digit
+// line number, then letters), every one newline-terminated. It is how a history says "a large
+// amount arrived at once" without carrying the bytes; the Lean driver expands it the same way.
+func c16Bulk(n, ln int) []byte {
+	var b bytes.Buffer
+	for i := 0; i < n; i++ {
+		fmt.Fprintf(&b, "%06d", i)
+		for j := 6; j < ln; j++ {
+			b.WriteByte(byte('a' + (i+j)%26))
+		}
+		b.WriteByte('\n')
+	}
+	return b.Bytes()
+}
+
+// c16Expand rewrites bulk appends into ordinary ones.
+func c16Expand(ops []string) []string {
+	out := make([]string, 0, len(ops))
+	for _, op := range ops {
+		p := strings.Split(op, ":")
+		if p[0] == "A" {
+			var n, ln int
+			fmt.Sscanf(p[1], "%d", &n)
+			fmt.Sscanf(p[2], "%d", &ln)
+			op = "a:" + hx(string(c16Bulk(n, ln)))
+		}
+		out = append(out, op)
+	}
+	return out
+}
+
 // c16Spec is the property's wording, written independently of mtail and of the Lean model.
 func c16Spec(ops []string) []string {
 	exists, tailing := true, true
@@ -304,7 +335,7 @@ func c16Spec(ops []string) []string {
 }
 
 func c16Run(r *runCtx, id string, f []string) {
-	ops := strings.Split(f[1], ";")
+	ops := c16Expand(strings.Split(f[1], ";"))
 	tailEnvInitial = nil
 	if strings.HasPrefix(ops[0], "pre:") {
 		tailEnvInitial = []byte(unhx(ops[0][4:]))
@@ -428,6 +459,25 @@ func init() {
 				for _, a := range alphabet {
 					for _, b := range alphabet {
 						g.emit("fs", "pre:"+hx(pre)+";"+a+";"+b+";a:"+hx("end\n"))
+					}
+				}
+			}
+			// a large amount arrives at once: sizes at and around the reader's buffer (128 KiB), as one
+			// line, as many short lines, after a fragment that is already buffered; what arrives
+			// afterwards, in this generation and the next, is still delivered
+			type bulk struct{ n, ln int }
+			bulks := []bulk{{1, 131071}, {16384, 7}, {1, 131070}, {1, 131072}, {1, 262143}, {2, 65535}}
+			pres := []string{"", "a:" + hx("fr") + ";"}
+			if g.thorough() {
+				bulks = append(bulks, bulk{8192, 15}, bulk{1024, 127}, bulk{1, 131069}, bulk{1, 65535}, bulk{4, 65535}, bulk{32768, 7}, bulk{1, 393215})
+				pres = append(pres, "a:"+hx("x\n")+";", "a:"+hx("l1\nl2\nfrag")+";")
+			}
+			for _, pre := range pres {
+				for _, bk := range bulks {
+					g.emit("fs", fmt.Sprintf("%sA:%d:%d;a:%s;rot;a:%s", pre, bk.n, bk.ln, hx("after\n"), hx("next\n")))
+					if pre != "" {
+						// the fragment plus the bulk fill the buffer exactly
+						g.emit("fs", fmt.Sprintf("%sA:1:%d;a:%s;a:%s", pre, 131071-2, hx("after\n"), hx("end\n")))
 					}
 				}
 			}
